@@ -504,6 +504,20 @@ def _gen(pal, thorough):
                             sp['late'] = mode
                             sp['tag'] += '|late:' + mode
                         yield sp
+    # Q9: array-valued rows - all plain rows sharing (set, sense, E) are ONE constraint object of several rows; supports
+    #     mixing components bounded at exactly zero with components of either sign, mirrored dependence
+    for S in (1, 2, 3):
+        for supp in SUPPS:
+            for ex, pr in (('none', 'free'), ('allbox', 'fixed'), ('sub0', 'box')):
+                for ny, rows in ((2, 'basic'), (2, 'basic+E'), (1, 'robust_bi'), (2, 'eqrob')):
+                    for att in (None, 'F2', 'supp'):
+                        for zsign in (None, [-1.0, 1.0], [1.0, -1.0]):
+                            sp = make(S=S, dz=2, pal=pal, supp=supp, ex=ex, pr=pr, rows=rows, ny=ny, att=att, zsign=zsign,
+                                      okind='minsup_E' if att is None else 'min_det' if att == 'supp' else 'minsup_E')
+                            if sp is not None:
+                                sp['vec'] = True
+                                sp['tag'] += '|vec'
+                            yield sp
     # global support declaration
     for S in (2, 3):
         for supp in SUPPS:
